@@ -113,7 +113,9 @@ theorem skel_Rpc_get_request : Gen.Skel.Rpc_get_request =
     "if", "then", "endif", "endif", "return"] := by decide
 
 theorem skel_Rpc__wait_for_request : Gen.Skel.Rpc__wait_for_request =
-  ["while", "r:_response", "do", "call:connection_adapter.check_for_errors", "if", "then",
+  ["while", "r:_response", "do", "try", "call:connection_adapter.check_for_errors",
+    "except:AMQPMessageError", "if", "then", "raise", "endif",
+    "call:connection_adapter.exceptions.insert", "endtry", "if", "then",
     "call:_raise_rpc_timeout_error", "endif", "call:time.sleep", "endwhile"] := by decide
 
 theorem skel_Rpc__get_response_frame : Gen.Skel.Rpc__get_response_frame =
